@@ -23,8 +23,9 @@ import TLX.Py
 namespace TLX.PyRt
 open TLX
 
-/-- the Python exceptions the subset can raise -/
-inductive Err | index | zeroDiv | value | overflow | key
+/-- the Python exceptions the subset can raise; `fuel` is not one: a `while` loop ran out of the rounds its spec
+    allows (the theorems exclude it) -/
+inductive Err | index | zeroDiv | value | overflow | key | type | fuel
   deriving DecidableEq, Repr, Inhabited
 
 /-- how a statement list was left -/
@@ -120,6 +121,41 @@ def dictGetE {κ ν : Type} (d : Dict κ ν) (k : κ) : Except Err ν :=
 def tableGet {κ ν : Type} [DecidableEq κ] (t : List (κ × ν)) (k : κ) : Option ν :=
   (t.reverse.find? (fun e => decide (e.1 = k))).map (·.2)
 
+/-- `d.keys()` of a dict display: every key once, at the place of its first entry -/
+def tableKeys {κ ν : Type} [DecidableEq κ] (t : List (κ × ν)) : List κ := (t.map (·.1)).eraseDups
+
+/-- `d.get(x)` where `x` is an int or a key-typed value and the keys are not ints: an int is never found -/
+def tableGetU {κ ν : Type} [DecidableEq κ] (t : List (κ × ν)) (x : Sum Int κ) : Option ν :=
+  match x with
+  | .inl _ => none
+  | .inr k => tableGet t k
+
+/-- calling what `d.get(k)` returned: `None` is not callable (TypeError) -/
+def callClass {κ α : Type} (f : Option κ) (k : κ → Except Err α) : Except Err α :=
+  match f with
+  | none => .error .type
+  | some c => k c
+
+/-- `d[k]` on a dict display: KeyError -/
+def tableGetE {κ ν : Type} [DecidableEq κ] (t : List (κ × ν)) (k : κ) : Except Err ν :=
+  match tableGet t k with
+  | none => .error .key
+  | some v => .ok v
+
+/-- `d[k] = v` / `d.update({k: v})`: an existing key keeps its place and gets the value, a new key goes to the end -/
+def tableSet {κ ν : Type} [DecidableEq κ] (t : List (κ × ν)) (k : κ) (v : ν) : List (κ × ν) :=
+  if (t.any fun e => decide (e.1 = k)) then t.map (fun e => if e.1 = k then (k, v) else e) else t ++ [(k, v)]
+
+/-- `p in s` for `str` (code points): `p` occurs as a contiguous part of `s` -/
+def strPrefix : List Nat → List Nat → Bool
+  | [], _ => true
+  | _ :: _, [] => false
+  | a :: as, b :: bs => a == b && strPrefix as bs
+
+def strIn (p : List Nat) : List Nat → Bool
+  | [] => p.isEmpty
+  | s@(_ :: t) => strPrefix p s || strIn p t
+
 /-! ### loops -/
 
 /-- `range(a, b)` -/
@@ -133,5 +169,73 @@ def forE {σ ι : Type} (l : List ι) (st : σ) (body : σ → ι → Except Err
     match body st i with
     | .error e => .error e
     | .ok st' => forE rest st' body
+
+/-- one round of a loop that can be left by `return`: go on with the new state, or leave with the result -/
+inductive Step (σ ρ : Type)
+  | next (s : σ)
+  | brk (s : σ)
+  | ret (r : ρ)
+
+/-- `for x in l: …` whose body may raise or `return` -/
+def forS {σ ι ρ : Type} (l : List ι) (st : σ) (body : σ → ι → Except Err (Step σ ρ)) : Except Err (Step σ ρ) :=
+  match l with
+  | [] => .ok (.next st)
+  | i :: rest =>
+    match body st i with
+    | .error e => .error e
+    | .ok (.ret r) => .ok (.ret r)
+    | .ok (.brk s) => .ok (.next s)
+    | .ok (.next s) => forS rest s body
+
+/-- `while cond: …` with at most `fuel` rounds; needing more is `.error .fuel` -/
+def whileS {σ ρ : Type} (fuel : Nat) (st : σ) (cond : σ → Bool) (body : σ → Except Err (Step σ ρ)) :
+    Except Err (Step σ ρ) :=
+  match fuel with
+  | 0 => if cond st then .error .fuel else .ok (.next st)
+  | n + 1 =>
+    if cond st then
+      match body st with
+      | .error e => .error e
+      | .ok (.ret r) => .ok (.ret r)
+      | .ok (.brk s) => .ok (.next s)
+      | .ok (.next s) => whileS n s cond body
+    else .ok (.next st)
+
+/-- what follows a loop, per way it ended (no `match` in generated code) -/
+@[inline] def loopS {σ ρ β : Type} (x : Except Err (Step σ ρ)) (onErr : Err → β) (onRet : ρ → β) (onNext : σ → β) : β :=
+  match x with
+  | .error e => onErr e
+  | .ok (.ret r) => onRet r
+  | .ok (.brk s) => onNext s
+  | .ok (.next s) => onNext s
+
+@[simp] theorem loopS_next {σ ρ β : Type} (s : σ) (f : Err → β) (g : ρ → β) (h : σ → β) :
+    loopS (.ok (.next s) : Except Err (Step σ ρ)) f g h = h s := rfl
+@[simp] theorem loopS_ret {σ ρ β : Type} (r : ρ) (f : Err → β) (g : ρ → β) (h : σ → β) :
+    loopS (.ok (.ret r) : Except Err (Step σ ρ)) f g h = g r := rfl
+@[simp] theorem loopS_error {σ ρ β : Type} (e : Err) (f : Err → β) (g : ρ → β) (h : σ → β) :
+    loopS (.error e : Except Err (Step σ ρ)) f g h = f e := rfl
+
+/-- `enumerate(x)` on bytes, counting from `n` -/
+def enumFrom (n : Nat) : Bytes → List (Nat × Nat)
+  | [] => []
+  | b :: r => (n, b.toNat) :: enumFrom (n + 1) r
+
+/-- iterating over bytes yields ints -/
+def bytesNat (b : Bytes) : List Nat := b.map UInt8.toNat
+
+/-- `range(a, b, step)` for `a, b ≥ 0`, `step > 0` -/
+def rangeStep (a b step : Nat) : List Nat := (List.range ((b - a + step - 1) / step)).map fun i => a + i * step
+
+/-- `x[a:b] = v` on a bytearray (`a, b ≥ 0`): the slice `[a', max a' b')` after clamping is replaced -/
+def setSlice (x : Bytes) (a b : Nat) (v : Bytes) : Bytes :=
+  x.take (min a x.length) ++ v ++ x.drop (max (min a x.length) (min b x.length))
+
+/-- `x[i] = v` on a bytearray: IndexError, ValueError (`v` not in range(256)) -/
+def setItemE (x : Bytes) (i v : Int) : Except Err Bytes :=
+  let j := if i < 0 then i + x.length else i
+  if j < 0 ∨ j ≥ x.length then .error .index
+  else if v < 0 ∨ v ≥ 256 then .error .value
+  else .ok (x.set j.toNat (UInt8.ofNat v.toNat))
 
 end TLX.PyRt
